@@ -3,6 +3,7 @@ import Driver.Tbl
 import Driver.Parse
 import Driver.W2X
 import Driver.EncX
+import Driver.X2T
 open Driver
 
 def dispatch (line : String) : String :=
@@ -15,6 +16,7 @@ def dispatch (line : String) : String :=
   | "ENCX" :: rest => encxVerb rest
   | "W2T" :: rest => w2tVerb rest
   | "T2T" :: rest => t2tVerb rest
+  | "X2T" :: rest => x2tVerb rest
   | _ => "BADVERB"
 
 partial def loop (h : IO.FS.Stream) (out : IO.FS.Stream) : IO Unit := do
